@@ -219,7 +219,7 @@ func (g *Gen) Object(s *Schema, depth int) *J {
 		if g.used > 2*g.Budget {
 			break
 		}
-		if g.Canonical && p.Ty.Class == "any" && p.Ty.PB {
+		if g.Canonical && (p.Ty.Class == "any" && p.Ty.PB || p.Ty.Unsupported != "" || (p.Ty.Item != nil && p.Ty.Item.Unsupported != "")) {
 			continue // google.protobuf.Any needs the WithProtoToAny codec option
 		}
 		if depth > 0 {
@@ -301,7 +301,9 @@ func (g *Gen) Value(t *Ty, depth int) *J {
 		j = g.Scalar(t.Kind)
 	case "enum":
 		s := g.Env.Lookup(t.Ref)
-		if len(s.Options) == 0 {
+		if t.Unsupported != "" {
+			j = Str(vh.Pick(g.R, []string{"90s", "1.5s", "", "1h"}))
+		} else if len(s.Options) == 0 {
 			j = Str("")
 		} else {
 			o := vh.Pick(g.R, s.Options)
